@@ -1003,7 +1003,8 @@ func (t *fnTr) assign(x *ast.AssignStmt, next func() (string, error)) (string, e
 
 // the code after a compound statement becomes a local function of the variables the statement assigns
 func (t *fnTr) join(n ast.Node, rest []ast.Stmt, env fnEnv) (def string, callK string, err error) {
-	vars := t.objNames(t.assignedOuter(n))
+	objs := t.assignedOuter(n)
+	vars := t.objNames(objs)
 	if len(rest) == 0 {
 		return "", env.k, nil
 	}
@@ -1013,7 +1014,20 @@ func (t *fnTr) join(n ast.Node, rest []ast.Stmt, env fnEnv) (def string, callK s
 	if err != nil {
 		return "", "", err
 	}
-	return fmt.Sprintf("let %s := fun %s =>\n%s in\n", j, funPat(vars), r), j + " " + tuple(vars), nil
+	pat := funPat(vars)
+	if len(objs) > 0 {
+		ty, err := t.tupleType(objs)
+		if err != nil {
+			return "", "", err
+		}
+		if len(objs) == 1 {
+			pat = fmt.Sprintf("(%s : %s)", vars[0], ty)
+		} else {
+			pat = fmt.Sprintf("(st : %s)", ty)
+			r = fmt.Sprintf("let '(%s) := st in\n%s", strings.Join(vars, ", "), r)
+		}
+	}
+	return fmt.Sprintf("let %s := fun %s =>\n%s in\n", j, pat, r), j + " " + tuple(vars), nil
 }
 
 func (t *fnTr) ifStmt(x *ast.IfStmt, rest []ast.Stmt, env fnEnv) (string, error) {
@@ -1068,8 +1082,10 @@ func (t *fnTr) ifStmt(x *ast.IfStmt, rest []ast.Stmt, env fnEnv) (string, error)
 }
 
 func (t *fnTr) switchStmt(x *ast.SwitchStmt, rest []ast.Stmt, env fnEnv) (string, error) {
-	if x.Init != nil || x.Tag == nil {
-		return "", t.errf(x, "switch with init or without tag")
+	if x.Init != nil {
+		y := *x
+		y.Init = nil
+		return t.stmts(append([]ast.Stmt{x.Init, &y}, rest...), env)
 	}
 	def, k, err := t.join(x, rest, env)
 	if err != nil {
@@ -1079,14 +1095,26 @@ func (t *fnTr) switchStmt(x *ast.SwitchStmt, rest []ast.Stmt, env fnEnv) (string
 	inner.k = k
 	inner.breakK = k
 	return t.withPre(func() (string, error) {
-		tag, err := t.expr(x.Tag)
-		if err != nil {
-			return "", err
+		// a tagless switch is an if-chain over boolean cases; with a tag the cases are compared with it
+		// (the tag is evaluated once; case expressions of the translated subset have no effects)
+		sw, head, eq := "", "", ""
+		if x.Tag != nil {
+			tag, err := t.expr(x.Tag)
+			if err != nil {
+				return "", err
+			}
+			switch {
+			case t.isString(x.Tag):
+				eq = "go_str_eqb"
+			default:
+				if _, _, ok := intBits(t.info.TypeOf(x.Tag)); !ok {
+					return "", t.errf(x, "switch on %s", t.info.TypeOf(x.Tag))
+				}
+				eq = "Z.eqb"
+			}
+			sw = t.fresh("sw")
+			head = fmt.Sprintf("let %s := %s in\n", sw, tag)
 		}
-		if _, _, ok := intBits(t.info.TypeOf(x.Tag)); !ok {
-			return "", t.errf(x, "switch on %s", t.info.TypeOf(x.Tag))
-		}
-		sw := t.fresh("sw")
 		dflt := k
 		type arm struct{ cond, body string }
 		var arms []arm
@@ -1106,21 +1134,31 @@ func (t *fnTr) switchStmt(x *ast.SwitchStmt, rest []ast.Stmt, env fnEnv) (string
 				continue
 			}
 			var cs []string
+			n0 := len(t.pre)
 			for _, e := range cc.List {
-				tv := t.info.Types[e]
-				c, ok := t.constant(tv)
-				if !ok {
-					return "", t.errf(e, "case that is not a constant")
+				c, err := t.expr(e)
+				if err != nil {
+					return "", err
 				}
-				cs = append(cs, fmt.Sprintf("Z.eqb %s %s", sw, c))
+				if len(t.pre) != n0 {
+					return "", t.errf(e, "an operation that can panic in a case expression")
+				}
+				if x.Tag != nil {
+					c = fmt.Sprintf("(%s %s %s)", eq, sw, c)
+				}
+				cs = append(cs, c)
 			}
-			arms = append(arms, arm{"(" + strings.Join(cs, " || ") + ")%bool", body})
+			cond := cs[0]
+			for _, c := range cs[1:] {
+				cond = fmt.Sprintf("(%s || %s)%%bool", cond, c)
+			}
+			arms = append(arms, arm{cond, body})
 		}
 		out := dflt
 		for i := len(arms) - 1; i >= 0; i-- {
 			out = fmt.Sprintf("if %s then\n%s\nelse\n%s", arms[i].cond, arms[i].body, out)
 		}
-		return fmt.Sprintf("%slet %s := %s in\n%s", def, sw, tag, out), nil
+		return def + head + out, nil
 	})
 }
 
